@@ -144,6 +144,18 @@ impl DecoderState {
         DecoderState::InitialState(InitialState {})
     }
 
+    /// Verification hook: `(tag, remaining, flag)` with tag 0 initial, 1 before chunk,
+    /// 2 mid header, 3 in chunk.
+    #[cfg(woodpile_verif)]
+    pub fn verif_state(&self) -> (u8, usize, bool) {
+        match self {
+            DecoderState::InitialState(_) => (0, 0, false),
+            DecoderState::BeforeChunk(s) => (1, 0, s.should_insert_stuff_sequence),
+            DecoderState::MidHeader(s) => (2, s.initial_byte as usize, false),
+            DecoderState::InChunk(s) => (3, s.remaining.get() as usize, s.terminate_with_stuff_sequence),
+        }
+    }
+
     /// Terminates the decoding process.
     ///
     /// Returns an error if the decoder was not stopped at the end of a chunk
